@@ -301,18 +301,19 @@ static void one_case(rng& g, char const* ename, E const& base, int kind, std::si
 
 template <typename E> static void engine_family(rng& g, char const* ename, E const& base, bool thorough, bool heavy)
 {
-    static char const* names[8] = {"", "x", " ", " x", "x ", "x y", "  ", "a b c"};
+    // (a name is any line of text: it may look like a comment, a number or a header)
+    static char const* names[12] = {"", "x", " ", " x", "x ", "x y", "  ", "a b c", "#jets", "# 1 17", "12", "-1.5e+00 3"};
     for (int kind = 0; kind != 3; ++kind)
         for (std::size_t nres = 0; nres <= (heavy ? 1u : 2u); ++nres)
         {
             std::vector<std::vector<dist_desc>> sets{{}};
-            if (nres && heavy) sets.push_back({dist_desc{names[g.below(8)], 1, 1}, dist_desc{names[g.below(8)], 2, 1 + g.below(2)}});
+            if (nres && heavy) sets.push_back({dist_desc{names[g.below(12)], 1, 1}, dist_desc{names[g.below(12)], 2, 1 + g.below(2)}});
             else if (nres)
             {
                 for (int k = 0; k != (thorough ? 8 : 4); ++k)
                 {
-                    sets.push_back({dist_desc{names[g.below(8)], 1 + g.below(2), 1 + g.below(2)}});
-                    sets.push_back({dist_desc{names[g.below(8)], 1, 1}, dist_desc{names[g.below(8)], 2, 1 + g.below(2)}});
+                    sets.push_back({dist_desc{names[g.below(12)], 1 + g.below(2), 1 + g.below(2)}});
+                    sets.push_back({dist_desc{names[g.below(12)], 1, 1}, dist_desc{names[g.below(12)], 2, 1 + g.below(2)}});
                 }
                 sets.push_back({dist_desc{"", 1, 1}});
                 sets.push_back({dist_desc{" x", 2, 2}, dist_desc{"", 1, 1}, dist_desc{" ", 1, 2}});
